@@ -166,8 +166,9 @@ def _body_copy(h, subst):
 
 
 class _Inliner:
-    def __init__(self, P, f):
+    def __init__(self, P, f, keep=()):
         self.P, self.f = P, f
+        self.keep = keep
         self.count = 0
         self.inlined = []
 
@@ -177,6 +178,8 @@ class _Inliner:
         h, base = _helper_of(self.P, self.f, call)
         if h is None or h.node is self.f.node or not _inlineable(h):
             return None, None
+        if (callable(self.keep) and self.keep(h.name)) or (not callable(self.keep) and h.name in self.keep):
+            return None, None  # an anchor the calling rule reasons about by name
         return h, base
 
     def splice(self, call, on_return, need_value=False, generator=False):
@@ -266,13 +269,14 @@ class _Inliner:
 _cache = {}
 
 
-def inlined_view(P, f):
-    """FuncInfo of f with private helpers spliced in (f itself when there is nothing to splice)"""
-    key = (id(P), f.key)
+def inlined_view(P, f, keep=()):
+    """FuncInfo of f with private helpers spliced in (f itself when there is nothing to splice); helpers named in `keep`
+    (a set of names or a predicate on the name) stay calls — they are the anchors the calling rule reasons about"""
+    key = (id(P), f.key, keep if callable(keep) else tuple(sorted(keep)))
     if key in _cache:
         return _cache[key]
     node = copy_tree(f.node)
-    inl = _Inliner(P, f)
+    inl = _Inliner(P, f, keep)
     node.body = inl.stmts(node.body, 0)
     if not inl.inlined:
         _cache[key] = f
